@@ -312,7 +312,11 @@ func (d *Driver) Run() *Rec {
 		delete(brokers, d.sc.ID)
 		brokersMu.Unlock()
 	}()
-	d.rec.Log("Reset", "kind", d.sc.Kind)
+	params := d.sc.P
+	if params == nil {
+		params = map[string]any{}
+	}
+	d.rec.Log("Reset", "kind", d.sc.Kind, "p", params)
 	for idx := range d.sc.Steps {
 		st := &d.sc.Steps[idx]
 		if st.G == "" {
@@ -762,7 +766,7 @@ func (d *Driver) exec(st *Step, g string) {
 			}
 			if u := d.b.Up(d.sid(st.Obj)); u != nil {
 				if inc := d.b.CurInc(); inc != nil && inc.alive() {
-					if seqs := d.b.Unacked(u); len(seqs) > 0 {
+					if seqs := d.b.Unacked(u, inc.c); len(seqs) > 0 {
 						if al := inc.AliasOf(u); al != 0 {
 							inc.ack(u, al, seqs, nil, nil)
 						}
@@ -934,16 +938,23 @@ func (d *Driver) doAck(st *Step) {
 		ms = 400
 	}
 	deadline := time.Now().Add(time.Duration(ms) * time.Millisecond)
+	inc := d.b.CurInc()
+	if st.C > 0 {
+		inc = d.b.IncN(st.C)
+	}
+	if inc == nil {
+		return
+	}
 	var seqs []uint32
 	if st.All {
 		time.Sleep(20 * time.Millisecond)
-		seqs = d.b.Unacked(u)
+		seqs = d.b.Unacked(u, inc.c)
 	} else {
 		for _, s := range st.Seqs {
-			for !d.b.Received(u, uint32(s)) && time.Now().Before(deadline) {
+			for !d.b.Received(u, uint32(s), inc.c) && time.Now().Before(deadline) {
 				time.Sleep(2 * time.Millisecond)
 			}
-			if !d.b.Received(u, uint32(s)) {
+			if !d.b.Received(u, uint32(s), inc.c) {
 				// the real run took another (legal) path than the model behaviour the script came from:
 				// the broker never acknowledges a chunk it has not received
 				d.rec.Log("AckSkipped", "seq", s)
@@ -954,13 +965,6 @@ func (d *Driver) doAck(st *Step) {
 			}
 			seqs = append(seqs, uint32(s))
 		}
-	}
-	inc := d.b.CurInc()
-	if st.C > 0 {
-		inc = d.b.IncN(st.C)
-	}
-	if inc == nil {
-		return
 	}
 	alias := inc.AliasOf(u)
 	if st.UpAl != 0 {
